@@ -21,7 +21,7 @@ RULE = ('cases are one key shape (primary + 0-3 subkeys, 1-2 identities with the
         'model in which the primary lacked the capability and a subkey had it, or nobody had it, or a re-binding had changed a '
         'subkey\'s capability; distinct = distinct (capability layout, operation, form, enforcement) tuples')
 TIERS = {'quick': {'runs': 4000, 'budget_s': 80}, 'thorough': {'runs': 200000, 'budget_s': 1500}}
-PROBES = ('last_identity_removed', 'unhashed_key_flags_added', 'recertify_without_issuer_fingerprint', 'subkey_used', 'primary_used', 'nobody_allowed_enforced', 'nobody_allowed_not_enforced', 'rebinding_changed_capability',
+PROBES = ('locked_key_with_unprotected_subkey', 'last_identity_removed', 'unhashed_key_flags_added', 'recertify_without_issuer_fingerprint', 'subkey_used', 'primary_used', 'nobody_allowed_enforced', 'nobody_allowed_not_enforced', 'rebinding_changed_capability',
           'recertify_changed_capability', 'same_second_rebinding', 'form_public', 'form_locked', 'form_unlocked', 'form_unprotected', 'form_copy',
           'no_identity_key', 'user_selected_identity', 'two_capable_subkeys', 'decrypt_by_subkey', 'encrypt_on_private_refused',
           'decrypt_stored_message', 'decrypt_stored_after_capability_lost')
@@ -63,7 +63,8 @@ def generate(rng, tier):
             steps.append({'id': sid, 'op': rng.choice(['sign', 'sign', 'certify', 'encrypt', 'encrypt', 'decrypt']),
                           'form': rng.choice(['unprotected', 'unprotected', 'unlocked', 'locked', 'public', 'copy']),
                           'user': rng.randrange(len(uids)) if rng.random() < 0.35 else None,
-                          'enforce': rng.random() < 0.75, 'stored': rng.randrange(8) if rng.random() < 0.6 else None})
+                          'enforce': rng.random() < 0.75, 'stored': rng.randrange(8) if rng.random() < 0.6 else None,
+                          'mixed_protection': rng.random() < 0.4})
     return {'config': {'primary': palg, 'uids': uids, 'subs': subs, 'no_identity': rng.random() < 0.06,
                        'start_us': 1_600_000_000_000_000}, 'steps': steps}
 
@@ -202,7 +203,18 @@ def execute(case, ctx):
         # ---- an operation on a key form
         form = step['form']
         ctx.probe('form_' + form)
-        if form in ('locked', 'unlocked'):
+        if form == 'locked' and step.get('mixed_protection'):
+            # a locked key one of whose components is not passphrase-protected (a signing subkey added inside an unlock scope):
+            # the key is locked all the same, private operations refuse
+            obj = pgpy.PGPKey.from_blob(bytes(key))[0]
+            obj.protect(passphrase, C.SymmetricKeyAlgorithm.AES128, C.HashAlgorithm.SHA256)
+            try:
+                with obj.unlock(passphrase):
+                    obj.add_subkey(world.new_key('ed25519', 'c16.mixed.' + step['id']), usage={C.KeyFlags.Sign})
+                ctx.probe('locked_key_with_unprotected_subkey')
+            except Exception as e:
+                ctx.event(step['id'], 'mixed-setup-raised', type(e).__name__)
+        elif form in ('locked', 'unlocked'):
             if protected_copy is None:
                 protected_copy = pgpy.PGPKey.from_blob(bytes(key))[0]
                 protected_copy.protect(passphrase, C.SymmetricKeyAlgorithm.AES128, C.HashAlgorithm.SHA256)
